@@ -184,7 +184,9 @@ def gen_derive_case(idx, row):
         decls, ctors = [], []
         for i, ig in enumerate(ign):
             fty = 'T' if (generic and i == 0) else 'P<Anchor>'
-            attr = '#[rust_cc(ignore)] ' if ig else ''
+            # other attributes before / after the ignore marker must not change its meaning
+            deco = [('', ''), ('', '#[allow(dead_code)] '), ('/// doc before\n', '/// doc after\n'), ('#[allow(dead_code)] ', '')][(i + idx) % 4]
+            attr = (deco[0] + '#[rust_cc(ignore)] ' + deco[1]) if ig else ('#[allow(dead_code)] ' if (i + idx) % 3 == 0 else '')
             if active:
                 pid = nid[0]
                 nid[0] += 1
@@ -214,7 +216,7 @@ def gen_derive_case(idx, row):
         for j, v in enumerate(d['variants']):
             act = (j + 1 == d['active'])
             decl, ctor = fields(v['fl'], act)
-            attr = '#[rust_cc(ignore)] ' if v['ignv'] else ''
+            attr = ('#[rust_cc(ignore)] ' + ('#[allow(dead_code)] ' if (j + idx) % 2 else '')) if v['ignv'] else ('#[allow(dead_code)] ' if (j + idx) % 2 else '')
             vs.append('    %sV%d%s,' % (attr, j, decl))
             if act:
                 ctor_active = '%s::V%d%s' % (D, j, ctor)
